@@ -24,6 +24,9 @@ GRAMMARS = {
                            Rule('item', [[A], [B, B]])], declare=['A', 'B']), ['A', 'B']),
     'chain2': (Grammar([Rule('start', [[N('x'), Opt(B)]]), Rule('?x', [[N('y')]]), Rule('y', [[N('z')]]), Rule('z', [[A], [A, A]])],
                        declare=['A', 'B']), ['A', 'B']),
+    # the same with an explicit empty alternative: an empty Tree('_items', []) sits on the value stack and is extended in place
+    'inl_lrec_empty2': (Grammar([Rule('start', [[N('_items')]]), Rule('_items', [[], [N('_items'), N('item')]]),
+                                 Rule('item', [[A], [B, B]])], declare=['A', 'B']), ['A', 'B']),
     # left recursion through an inlined rule: ChildFilterLALR reuses the child's list in place
     'inl_lrec': (Grammar([Rule('start', [[N('_list')]]), Rule('_list', [[N('_list'), N('item')], [N('item')]]),
                           Rule('item', [[A], [B, C]])], declare=['A', 'B', 'C']), ['A', 'B', 'C']),
@@ -58,7 +61,17 @@ if P and P.get('kind') == 'forks':
     from lark.exceptions import UnexpectedToken, UnexpectedInput
     G, NAMES = GRAMMARS[P['g']]
     K = len(NAMES)
-    LARK = Lark(G.render(), parser='lalr', lexer=hs.make_list_lexer(NAMES))
+    if P.get('mut'):
+        from lark import Transformer
+
+        class MutT(Transformer):
+            # an embedded callback that edits its token in place (the unquoting idiom): every fork owns the tokens on its value stack
+            def item(self, c):
+                c[0].value = c[0].value + '!'
+                return ('item',) + tuple(t.value for t in c)
+        LARK = Lark(G.render(), parser='lalr', lexer=hs.make_list_lexer(NAMES), transformer=MutT())
+    else:
+        LARK = Lark(G.render(), parser='lalr', lexer=hs.make_list_lexer(NAMES))
     LP, LC = P['LP'], P['LC']
     FK = P.get('fork_kind')
     ORD = P.get('order')
@@ -383,6 +396,14 @@ def plan(tier, seed):
                 slices.append({'id': 'forks:%s:kind%d:order%d:p%d:c%d' % (g, fk, od, LP, LC), 'func': 'forks',
                                'params': {'kind': 'forks', 'g': g, 'LP': LP, 'LC': LC, 'fork_kind': fk, 'order': od}, 'timeout': 300 if quick else 3000,
                                'twin': fk == 0 and od == 2, 'bound': {'prefix': LP, 'continuations': LC}})
+    for g, mut in (('inl_lrec_empty2', False), ('inl_lrec2', True), ('inl_lrec_empty2', True)):
+        for fk in range(4):
+            for od in range(3):
+                if quick and not (fk in (0, 2) and od == 2):
+                    continue
+                slices.append({'id': 'forks:%s%s:kind%d:order%d:p%d:c%d' % (g, ':mut' if mut else '', fk, od, LP, LC), 'func': 'forks',
+                               'params': {'kind': 'forks', 'g': g, 'LP': LP, 'LC': LC, 'fork_kind': fk, 'order': od, 'mut': mut}, 'timeout': 300 if quick else 3000,
+                               'twin': False, 'bound': {'prefix': LP, 'continuations': LC, 'embedded_callback_edits_tokens': mut}})
     for g in ACC_GRAMMARS:
         # the order in which accepts() tries the terminals follows the parse table's dict order, which depends on the string hash
         # seed: the slice is repeated under different PYTHONHASHSEED values (sampled, declared)
